@@ -68,6 +68,7 @@ type btxState struct {
 	committed bool
 	attempts  []*attempt
 	armed     []string
+	nonce     string
 }
 
 type attempt struct {
@@ -126,6 +127,19 @@ type Run struct {
 	res       *RunResult
 	start     time.Time
 	txSeq     int
+
+	// snap / conc profiles
+	openViews            int
+	committedNonce       string
+	history              []viewRec
+	meta                 metaModel
+	snaps                []*snapRec
+	restoring            *pendingRestore
+	expectRestored       *snapRec
+	restores             int
+	restoreListenerCalls int
+	tlCounter            int
+	helperExp            map[string]string
 }
 
 var runCounter atomic.Int64
@@ -162,9 +176,17 @@ func Execute(t *testing.T, plan *Plan, opt ExecOpt) (res *RunResult) {
 			res.HarnessErr = fmt.Sprintf("bubble panic: %v", p)
 		}
 	}()
-	synctest.Test(t, func(t *testing.T) {
-		r := &Run{plan: plan, opt: opt, res: res}
-		r.run()
+	// own sub-test: a -race binary fails (FailNow) the test in which a race was reported; that must not end the worker
+	t.Run("run", func(t *testing.T) {
+		defer func() {
+			if p := recover(); p != nil {
+				res.HarnessErr = fmt.Sprintf("bubble panic: %v", p)
+			}
+		}()
+		synctest.Test(t, func(t *testing.T) {
+			r := &Run{plan: plan, opt: opt, res: res}
+			r.run()
+		})
 	})
 	return res
 }
@@ -204,6 +226,13 @@ func (r *Run) open() error {
 	r.s.mu.Lock()
 	r.s.mainDb = db
 	r.s.mu.Unlock()
+	db.AddRestoreListener(func() {
+		defer r.s.AsyncDone()
+		r.s.AsyncEnter("async:restore-listener")
+		r.mu.Lock()
+		r.restoreListenerCalls++
+		r.mu.Unlock()
+	})
 	db.AddTxCompleteListener(func(ctx boltz.MutateContext) {
 		r.mu.Lock()
 		tr := r.ctxTx[ctx]
@@ -243,6 +272,7 @@ func (r *Run) run() {
 	}
 	r.s = NewSched(r.plan.Seed^0xa0761d6478bd642f, replay, maxSteps)
 	r.s.mainPath = r.path
+	r.s.Windows = r.plan.Profile == "conc"
 	r.st = NewStores()
 	if r.plan.Listeners {
 		registerListeners(r, StDepts, boltz.EntityStore[*Dept](r.st.Depts))
@@ -285,6 +315,7 @@ func (r *Run) run() {
 	r.s.onRw = r.onRw
 	r.s.onSeam = r.onSeam
 	r.s.onQuiescent = r.onQuiescent
+	r.s.onRestore = r.onRestore
 	boltz.SimHook = r.s.SimHook
 	simseam.Hook = r.s.SeamHook
 
@@ -311,6 +342,12 @@ func (r *Run) run() {
 	res.SimTimeNs = int64(time.Since(r.start))
 	if r.s.NestedRLockP > 0 {
 		r.probe("rlock_requested_while_restore_pending")
+	}
+	if r.s.WindowsOpened > 0 {
+		r.bump(&r.res.Probes, "race_windows_opened")
+	}
+	if r.s.RestoreWaited > 0 {
+		r.probe("restore_waited_for_open_tx")
 	}
 	if r.s.harnessErr != "" {
 		res.HarnessErr = r.s.harnessErr
@@ -361,6 +398,9 @@ func (r *Run) onRw(ev string) {
 		}
 		if b.committed {
 			r.committed = b.working
+			if b.nonce != "" {
+				r.committedNonce = b.nonce
+			}
 			r.res.Commits++
 			for _, a := range b.attempts {
 				if !a.done {
@@ -533,7 +573,14 @@ func (r *Run) onQuiescent() {
 		r.mu.Lock()
 		r.res.States = append(r.res.States, d.Hash)
 		r.lastDump = d
+		restored := r.expectRestored
+		r.expectRestored = nil
 		r.mu.Unlock()
+		if restored != nil {
+			if v := checkRestoredDump(restored, d); v != nil {
+				found = append(found, *v)
+			}
+		}
 		found = append(found, Mirror(tx, r.st)...)
 		found = append(found, CompareModel(tx, r.st, committed, U.ByStore())...)
 		for _, ref := range trace {
@@ -742,6 +789,16 @@ func (r *Run) body(tr *txRun, ctx boltz.MutateContext) (err error) {
 		r.mu.Unlock()
 		r.bump(&r.res.FaultsHit, kind)
 	}
+	if r.plan.Nonce {
+		nonce := fmt.Sprintf("%s@%d", tr.id, len(tr.attempts))
+		if err := writeNonce(ctx.Tx(), nonce); err != nil {
+			r.s.HarnessError("nonce: " + err.Error())
+			panic(abortSig{})
+		}
+		r.mu.Lock()
+		b.nonce = nonce
+		r.mu.Unlock()
+	}
 	for i, op := range tr.plan.Ops {
 		for fi, f := range tr.plan.Faults {
 			if f.At == i && !a.usedF[fi] {
@@ -758,7 +815,11 @@ func (r *Run) body(tr *txRun, ctx boltz.MutateContext) (err error) {
 			}
 		}
 		if i > 0 {
-			yield("op")
+			if i == len(tr.plan.Ops)-1 {
+				yield("op.last") // followed by the commit: never part of a race window
+			} else {
+				yield("op")
+			}
 		}
 		if err := r.execOp(a, ctx, i, op); err != nil {
 			return err
